@@ -97,6 +97,7 @@ type Obligation struct {
 	Script   *Script
 	Extra    []string
 	Cover    bool // expected SAT
+	Probe    bool // an outcome probe: unsat is a note in the evidence, not an error
 	ClauseAt string
 	CallLog  []callRec
 	Params   []string
